@@ -342,6 +342,13 @@ void Notification::BeginExecuteNotification(NotificationType type, const CheckRe
 					SetNoMoreNotifications(false);
 			}
 
+			/* The incident is over even if this object never sends Recovery notifications:
+			 * forget who was notified about it. Otherwise the next incident's Acknowledgement
+			 * notification reaches users who were never told about that problem.
+			 */
+			if (type == NotificationRecovery)
+				GetNotifiedProblemUsers()->Clear();
+
 			return;
 		}
 
